@@ -325,7 +325,7 @@ class Matcher:
                 self.err(path, "value is not derived from exactly the expected input(s)", sp, expected=sorted(want), found=sorted(got))
                 return False
             if not spec.get("loose"):
-                allowed = tuple(spec.get("via", [])) + BENIGN
+                allowed = tuple(spec.get("via", [])) + tuple(x for alt in spec.get("via_any", []) for x in alt) + BENIGN
                 bad = sorted(r for r in roots(v) if (r.startswith("call:") and not r[5:].endswith(allowed)) or r.startswith("op:"))
                 if bad:
                     self.err(path, "value is transformed on its way from the parameter to the encoder (only accessors/adaptors are expected here)", sp, expected="%s written as is" % sorted(want), found=bad)
@@ -344,6 +344,17 @@ class Matcher:
                 missing = [c for c in spec["via"] if not any(x.endswith(c) for x in calls) and not _as_field(c)]
                 if missing:
                     self.err(path, "value does not pass through the expected function", sp, expected=missing, found=sorted(calls))
+                    return False
+            if spec.get("via_any"):
+                # alternative spellings of the same computation (a named helper, or the helper's one-line body written out)
+                calls = calls_of(v)
+                pls = places(v)
+                def _alt_ok(alt):
+                    need_calls = [c for c in alt if not c.startswith(".")]
+                    need_field = [c for c in alt if c.startswith(".")]
+                    return all(any(x.endswith(c) for x in calls) for c in need_calls) and all(any(pl.endswith(f_) for pl in pls) for f_ in need_field)
+                if not any(_alt_ok(alt) for alt in spec["via_any"]):
+                    self.err(path, "value does not pass through the expected function", sp, expected=spec["via_any"], found=sorted(calls))
                     return False
             if spec.get("not_via"):
                 calls = calls_of(v)
